@@ -3,7 +3,7 @@ script lines (DESIGN appendix B) whose first line is the `cfg` line."""
 import random
 
 KEYLENS = [1, 4, 8, 33, 128]
-TS_POOL = [3, 5, 5, 7, 9, 9, 11]
+TS_POOL = [0, 3, 5, 5, 7, 9, 9, 11]   # 0: the smallest timestamp is a value like any other
 METAS_W = ['-', '-', 'e', 'm:01', 'm:02ff']
 METAS_Q = ['e', 'm:01', 'm:02ff', 'm:77']
 DLENS = [0, 1, 7, 10, 100, 300]
@@ -50,8 +50,37 @@ def queries(kind, keys, absent):
             for m in METAS_Q:
                 q.append(f'rw {k} {m}')
     if kind in ('c15', 'all'):
-        q.append('counts')
+        q += ['counts', 'fcounts']
     return q
+
+
+def range_prelude(rng, keys, seed):
+    """filter-shaped start of a history: the first blob of a filter group holds the middle keys, the next one both
+    extremes (a merged-in range wider on both sides); then possibly a third blob"""
+    lines = []
+    for kk in keys[1:-1]:
+        lines += [f'w {kk} {rng.choice(TS_POOL)} - 3 {seed}', 'states']
+        seed += 1
+    lines += [rng.choice(['close_active', 'force always']), 'states']
+    for kk in (keys[0], keys[-1]):
+        lines += [f'w {kk} {rng.choice(TS_POOL)} - 3 {seed}', 'states']
+        seed += 1
+    lines += [rng.choice(['close_active', 'force always']), 'states']
+    return lines, seed
+
+
+def offload_grow_prelude(rng, keys, seed):
+    """a closed blob in a filter group, buffers off-loaded at a group level, then more blobs closed into the group"""
+    lines = [f'w {keys[0]} {rng.choice(TS_POOL)} - 3 {seed}', 'states', rng.choice(['close_active', 'force always']), 'states']
+    seed += 1
+    if rng.random() < 0.5:
+        lines += [f'w {keys[-1]} {rng.choice(TS_POOL)} - 3 {seed}', 'states', 'force always', 'states']
+        seed += 1
+    lines += [f'offload 100000000 {rng.choice([1, 1, 2])}', 'states']
+    for kk in (keys[1 % len(keys)], keys[-1], keys[0])[:rng.choice([2, 3])]:
+        lines += [f'w {kk} {rng.choice([3, 5])} - 3 {seed}', 'states', 'force always', 'states']
+        seed += 1
+    return lines, seed
 
 
 def kv_scenario(rng, kind='all', n_ops=None, size='quick', **over):
@@ -64,6 +93,9 @@ def kv_scenario(rng, kind='all', n_ops=None, size='quick', **over):
     n_ops = n_ops or (rng.randint(4, 14) if size == 'quick' else rng.randint(8, 40))
     lines = [line, 'states']
     seed = 1
+    if len(keys) >= 3 and rng.random() < 0.3:
+        pre, seed = range_prelude(rng, keys, seed)
+        lines += pre + queries(kind, keys, absent)
     p_switch = rng.choice([0.1, 0.25, 0.5])
     p_del = rng.choice([0.0, 0.15, 0.4])
     hot = rng.choice(keys)
@@ -94,6 +126,43 @@ def kv_scenario(rng, kind='all', n_ops=None, size='quick', **over):
                 seed += 1
         lines.append('states')
         lines += queries(kind, keys, absent)
+    return lines
+
+
+def acct_scenario(rng, size='quick', **over):
+    """C15: counters against the directory after every step of a kv history, and across quarantines: a blob file is
+    damaged between two sessions (with and without `ignore_corrupted`), then the storage goes on"""
+    if rng.random() < 0.7:
+        return kv_scenario(rng, 'c15', size=size, **over)
+    c, line = cfg_line(rng, dup=1, ignore=rng.choice([0, 0, 1]), **over)
+    keys = mk_keys(rng, c['key'], 3)
+    lines = [line, 'states', 'counts', 'fcounts']
+    seed = 1
+    nblobs = 1
+    damaged = False
+    for _ in range(rng.randint(6, 14) if size == 'quick' else rng.randint(10, 30)):
+        x = rng.random()
+        if x < 0.5:
+            lines.append(f'w {rng.choice(keys)} {rng.choice(TS_POOL)} {rng.choice(METAS_W)} {rng.choice([0, 10, 300, 5000])} {seed % 250 + 1}')
+            seed += 1
+        elif x < 0.6:
+            lines.append(f'd {rng.choice(keys)} {rng.choice(TS_POOL)} - {rng.choice([0, 1])}')
+        elif x < 0.8:
+            op = rng.choice(['close_active', 'create_active', 'restore_active', 'force always', 'force always', 'settle'])
+            if op in ('create_active', 'force always'):
+                nblobs += 1
+            lines.append(op)
+        elif x < 0.88:
+            lines.append(rng.choice(['restart', 'restart lazy']))
+        else:
+            if not damaged:
+                lines.append('nomodel')
+                damaged = True
+            b = rng.randrange(0, max(1, nblobs))
+            kind = rng.choice(['magic', 'hflip:0', 'hflip:1', f'cut:{rng.choice([1, 5, 30])}', 'dflip:0'])
+            lines.append(f'restart bdmg={b}:{kind}')
+        lines += ['states', 'counts', 'fcounts']
+    lines += ['settle', 'fcounts', 'restart', 'states', 'counts', 'fcounts']
     return lines
 
 
@@ -132,6 +201,13 @@ def maint_scenario(rng, size='quick', **over):
     n_ops = rng.randint(6, 14) if size == 'quick' else rng.randint(10, 36)
     lines = [line, 'states']
     seed = 1
+    y = rng.random()
+    if y < 0.2:
+        pre, seed = offload_grow_prelude(rng, keys, seed)
+        lines += pre + queries('all', keys, absent)
+    elif y < 0.35 and len(keys) >= 3:
+        pre, seed = range_prelude(rng, keys, seed)
+        lines += pre + queries('all', keys, absent)
     for _ in range(n_ops):
         x = rng.random()
         if x < 0.5:
@@ -295,6 +371,55 @@ def sync_scenario(rng, size='quick', **over):
     return lines
 
 
+def sync_rotation_scenario(rng, size='quick', **over):
+    """C12: the write that passes the dirty-byte limit also fills the blob (rotation by record limit), then further
+    writes pass the limit in the new blob; traces are judged by the predicates only (the sync task and the rotation
+    run concurrently, their interleaving is not modelled)"""
+    maxdata = rng.choice([2, 3, 4])
+    limit = rng.choice([100, 2500, 4096, 20000])
+    c, line = cfg_line(rng, dup=1, dirty=limit, maxdata=maxdata, **over)
+    keys = mk_keys(rng, c['key'], 3)
+    lines = [line, 'states', 'nomodel', 'trace', 'fstates', 'wait 260']
+    seed = 1
+    for r in range(rng.randint(2, 4)):
+        for i in range(maxdata):
+            big = i == maxdata - 1 or rng.random() < 0.3
+            ln = rng.choice([limit + 500, 3000, 30000]) if big else rng.choice([0, 10, 50])
+            lines += [f'w {rng.choice(keys)} {rng.choice(TS_POOL)} - {ln} {seed % 250 + 1}', 'states', 'trace', 'fstates']
+            seed += 1
+        lines += ['wait 260']
+    lines += ['settle', 'trace', 'fstates', 'close', 'trace', 'open', 'trace', 'fstates']
+    return lines
+
+
+def sync_fault_scenario(rng, size='quick', **over):
+    """C12: a sync of a blob file fails right where an index is about to be written (close of the active blob, dump of
+    a closed blob, close of the storage): an index must not be marked complete for bytes that were not synced"""
+    limit = rng.choice([0, 100, 33554432])
+    c, line = cfg_line(rng, dup=1, dirty=limit, **over)
+    keys = mk_keys(rng, c['key'], 3)
+    lines = [line, 'states', 'trace', 'fstates']
+    seed = 1
+    for _ in range(rng.randint(1, 4)):
+        lines += [f'w {rng.choice(keys)} {rng.choice(TS_POOL)} {rng.choice(METAS_W)} {rng.choice([0, 10, 300, 5000])} {seed % 250 + 1}',
+                  'states', 'trace', 'fstates']
+        seed += 1
+    lines += ['quiesce', 'nomodel', f'fault sync {rng.choice([0, 0, 1])} .blob fail:5' + rng.choice(['', ' sticky'])]
+    how = rng.choice(['close_active', 'close_active', 'force', 'close'])
+    if how == 'close_active':
+        lines += ['close_active', 'states', 'settle', 'trace', 'fstates']
+    elif how == 'force':
+        lines += ['force always', 'states', 'settle', 'trace', 'fstates']
+    else:
+        lines += ['close', 'trace', 'clearfaults', 'open', 'trace', 'fstates']
+    lines += ['clearfaults', 'trace', 'fstates']
+    for _ in range(2):
+        lines += [f'w {rng.choice(keys)} {rng.choice(TS_POOL)} - 10 {seed % 250 + 1}', 'states', 'trace', 'fstates']
+        seed += 1
+    lines += ['settle', 'trace', 'fstates', 'close', 'trace', 'open', 'trace', 'fstates']
+    return lines
+
+
 def harm_scenario(rng, size='quick', **over):
     """C07: histories with restarts, quarantines (damaged blob files between sessions) and index damage; byte
     snapshots of every blob file after every step; traces; queries at quiescent points"""
@@ -357,7 +482,7 @@ def nat_key(klen, n):
 def index_scenario(rng, size='quick', **over):
     """C09: header multisets of systematic shapes written into one blob, dumped to a B+tree index file, queried
     through the file for every present key and for absent keys below / between / above, loaded back"""
-    klen = rng.choice([1, 4, 8, 33, 128, 128, 1000, 1000]) if size != 'quick' else rng.choice([1, 4, 33, 128, 1000])
+    klen = rng.choice([1, 4, 8, 33, 128, 128, 503, 1000, 1000]) if size != 'quick' else rng.choice([1, 4, 33, 128, 503, 1000])
     c, line = cfg_line(rng, key=klen, dup=1, rt='mt', **over)
     rhs = 57 + klen
     per_block = 4096 // rhs
@@ -368,7 +493,7 @@ def index_scenario(rng, size='quick', **over):
         # aim at a leaf count around multiples of the fan-out: that is where the two copies of the layer-splitting
         # loop (collect_next_layer_nodes / shift_all_and_write) could disagree; one header per key, so that the
         # number of leaves is ceil(nkeys / per_block)
-        if klen >= 1000:
+        if klen >= 500:
             targets = [1, 2, fan - 1, fan, fan + 1, 2 * fan - 1, 2 * fan, 2 * fan + 1, fan * fan - 1, fan * fan,
                        fan * fan + 1, fan * fan + fan, 2 * fan * fan, fan ** 3]
         else:
@@ -376,7 +501,7 @@ def index_scenario(rng, size='quick', **over):
         leaves = rng.choice(targets)
         nkeys = max(1, leaves * per_block - rng.choice([0, 0, 1, per_block - 1]))
         shaped = True
-    elif klen >= 1000:
+    elif klen >= 500:
         nkeys = rng.choice([1, 2, 3, 4, fan, fan + 1, fan * fan + 2, 3 * fan * fan]) if size != 'quick' else rng.choice([1, 3, fan + 1, fan * fan + 2])
     elif klen >= 128:
         nkeys = rng.choice([1, 2, per_block, per_block + 1, fan + 2, 2 * fan * per_block // 3]) if size != 'quick' else rng.choice([1, per_block + 1, fan + 2])
@@ -698,6 +823,12 @@ def conc_scenario(rng, size='quick', **over):
     """C08: N concurrent clients (writes / probes / reads / deletes with unique increasing timestamps) on a fresh and on
     a reopened blob, with rotation by record limit and optionally a maintenance task"""
     maxdata = rng.choice([1000000, 50, 20, 7])
+    if rng.random() < 0.12:
+        # duplicates disallowed: concurrent writers only (sequentially exactly one record per key is stored)
+        c, line = cfg_line(rng, dup=0, maxdata=maxdata, rt=rng.choice(['mt', 'ct']), **over)
+        clients = rng.choice([4, 16, 64])
+        return [line, 'states', 'nomodel', f'conc {clients} {rng.choice([3, 6])} {rng.randrange(1, 10**6)} writes', 'alive',
+                'settle', 'restart noidx', 'corruptedx']
     c, line = cfg_line(rng, dup=1, maxdata=maxdata, rt=rng.choice(['mt', 'mt', 'ct']), dirty=rng.choice([0, 4096, 33554432]), **over)
     klen = c['key']
     keys = mk_keys(rng, klen, 2)
